@@ -1,13 +1,15 @@
 import GuppyVerif.Lemmas.C08Bfs
 import GuppyVerif.Lemmas.C08Complete
 import GuppyVerif.Lemmas.C08Used
+import GuppyVerif.Lemmas.C08Term
 import GuppyVerif.Props.C09
 /-! # C08 — Use-before-definition and path-dependent types are rejected exactly
 
 Property theorems only.  `checkCfg` is the model of `check_cfg` (entry `check_bb`, then the BFS
 over control-flow edges with block signatures and `check_rows_match`); it returns all candidate
-errors of the first failing step (`none` = out of fuel).  All statements are for arbitrary
-CFGs with arbitrary statement (event) lists — no size bound. -/
+errors of the first failing step (`none` = out of fuel; `check_terminates` shows an explicit
+amount of fuel always suffices).  All statements are for arbitrary CFGs with arbitrary
+statement (event) lists — no size bound. -/
 namespace GuppyVerif.UseDef
 open GuppyVerif.Dataflow
 
@@ -249,6 +251,22 @@ theorem used_iff_read_before_write (U : UCfg) (b : Blk) (x : Var) :
   show x ∈ usedOf (U.events b) [] [] ↔ _
   rw [mem_usedOf_gen]
   simp
+
+/-- **The model of `check_cfg` terminates**: with `checkBound U` fuel (explicit: the number of
+    followed edges plus the two analysis bounds of C09) `check` returns a verdict, never "out of
+    fuel".  Together with `check_spec` this is total correctness of the model. -/
+theorem check_terminates {U : UCfg} (hU : U.WF) (fuel : Nat) (hf : checkBound U ≤ fuel) :
+    (check U fuel).isSome = true :=
+  check_isSome U hU fuel hf
+
+/-- total correctness: a verdict exists and it is the path-based one -/
+theorem check_total {U : UCfg} (hU : U.WF) :
+    ∃ r, check U (checkBound U) = some r ∧
+      ((∃ es x, r = .error es ∧ Err.notDefined x ∈ es) ↔ ∃ x, Undef U x) ∧
+      ((∀ x, ¬ Undef U x) → (∀ x, ¬ TypeConflict U x) → ∃ c, r = .ok c) := by
+  obtain ⟨r, hr⟩ := Option.isSome_iff_exists.mp (check_terminates hU _ (Nat.le_refl _))
+  have hs := check_spec hU _ r hr
+  exact ⟨r, hr, hs.1, hs.2.2⟩
 
 /-! ## Non-vacuity: `if c: x = 1` / `else: pass`, then read `x`; and a re-typed variable. -/
 
